@@ -129,6 +129,12 @@ def line_props(ops_line, field):
     return props
 
 
+def line_is_shared(ops_line):
+    name = op_name(ops_line)
+    toks = ops_line.split(" | ")[0].split(" ")
+    return name in SHARED or (name == "it" and len(toks) > 3 and toks[3] in ("iter", "keys", "values"))
+
+
 FIELD_RE = re.compile(r"(\w+)=(\[[^\]]*\]|\S+)")
 
 
@@ -397,8 +403,11 @@ def run_shard(ctx, idx, family, seqs, extra, shard, nshards, careful=False, tag=
         # a crash or a hang of the real code: no point in running the remaining shards
         ctx.abort = True
         return res
+    # the driver also reads the observations: after a line on which model and implementation differ
+    # (reported for that line) it continues from the implementation's observed state, so that every
+    # line is checked as one transition from the state the real code was actually in
     with open(prefix + ".ops") as fi, open(prefix + ".pred", "w") as fo:
-        p = subprocess.run([ctx.driver], stdin=fi, stdout=fo, stderr=subprocess.PIPE, text=True)
+        p = subprocess.run([ctx.driver, prefix + ".obs"], stdin=fi, stdout=fo, stderr=subprocess.PIPE, text=True)
     res["driver_rc"] = p.returncode
     res["driver_err"] = p.stderr[-1000:]
     if variant:
@@ -428,10 +437,19 @@ def compare(ctx, res):
     forget_seq = False
     panic_seq = False
     seen_seq = set()
+    # lines since the last full observation of the sequence. The driver continues from the
+    # implementation's observed state after every *full* line (so a full line that follows a full line
+    # is one transition from a known common state), but light lines (`L`, long sequences) show only
+    # len/cur/max/cap: contents and order can drift unseen until the next full line.
+    span = []
     for i in range(n):
         if ops[i].startswith("# seq"):
             forget_seq = False
             panic_seq = False
+            span = []
+        is_full = ops[i].startswith("F ")
+        prior = list(span)
+        span = [] if is_full else (span + [i] if ops[i].startswith("L ") else span)
         if obs[i] == pred[i]:
             if ops[i].endswith(" f") or " f |" in ops[i]:
                 forget_seq = forget_seq or (" it " in ops[i])
@@ -446,8 +464,17 @@ def compare(ctx, res):
             if not fields:
                 continue
         props = set()
+        drifted = bool(prior) and bool({"ord", "rord", "rs", "lru", "mru"} & set(fields))
         for f in fields:
-            props |= line_props(ops[i], f)
+            if drifted and f in ("ord", "rord", "rs", "lru", "mru", "ret", "ev", "h", "hs", "lb"):
+                # contents/order differ at the first full line after light lines: the divergence belongs to
+                # one of the operations since the last full observation — to the mutating ones, unless all
+                # of them only observe
+                cand = [j for j in prior + [i] if not line_is_shared(ops[j])] or (prior + [i])
+                for j in cand:
+                    props |= line_props(ops[j], f if f in ("ord", "rord", "rs", "lru", "mru") else "ord")
+            else:
+                props |= line_props(ops[i], f)
         # after a forgotten iterator / an injected panic only structural fields speak about C17 / C16
         # (what later operations return is the business of their own properties); the scenario
         # line itself is tagged by line_props
@@ -562,7 +589,7 @@ def replay_lines(ctx, lines, tag):
     if rc != 0:
         return True, [], [], out
     with open(prefix + ".ops") as fi, open(prefix + ".pred", "w") as fo:
-        subprocess.run([ctx.driver], stdin=fi, stdout=fo, stderr=subprocess.PIPE)
+        subprocess.run([ctx.driver, prefix + ".obs"], stdin=fi, stdout=fo, stderr=subprocess.PIPE)
     if variant in VARIANTS:
         project_pred(prefix + ".pred", variant)
     return False, monitor_failures(res), compare(ctx, res), out
